@@ -4,6 +4,26 @@ as a comprehension over "every file of the tree together with the directories ab
 traversal.  Faults are part of the specification: a file is not extracted when a directory above it
 cannot be opened, when the listing of a directory above it failed at or before the entry leading to it,
 or when the file itself cannot be stat'ed for the size check, opened, or stat'ed once open.
+
+WHAT THIS SPECIFICATION SHARES WITH THE MODEL (it imports Model/Walk.lean) and why that is harmless:
+  * DATA TYPES of the problem statement: `Node`, `Path`, `Kind`, `Pat`/`PatSet`, `Cfg`, `Faults`, `Call`, `GiEntry`, `Err`.
+  * `lookup` (the node a path leads to — first entry of that name), `statKind` (`fs.Stat` follows a link): vocabulary needed
+    to SAY which node a requested path denotes; `Proofs/WalkOnce.lean` anchors `lookup` against `allFiles`
+    (`C01_allFiles_exact`).
+  * `tokens`, `domainOf`, `stackMatch`: how a path and a `.gitignore`'s directory are handed to the (parametric) go-git
+    matcher `c.giMatch`, and "some pattern set of the list excludes it"; these are the matcher's calling convention,
+    validated against go-git by the stream, not walk logic.
+  * `parentGis` (the `.gitignore` context of a requested directory): used verbatim in `mustRequested`.  It is anchored
+    declaratively by `C01_parentGis_is_chain` (Properties/C01.lean = `parentGis_chain`): it equals the `giEntryOf`s of
+    the chain of directories leading from the root to the requested path — the same context the whole-tree enumeration
+    gives the files below it.
+  * `excludedDir` below is, clause for clause, the disjunction `shouldSkipDir` evaluates.  That is intended: the property
+    is parametric in "a configured skip rule", and this disjunction (skip list ∨ sub-directory cut-off ∨ gitignore ∨
+    regex ∨ glob; the scan root is never gitignored) is the DEFINITION of that phrase, not a derived fact.  What the
+    specification adds is WHERE the rules are applied: to every directory on the chain above a file, with exactly the
+    patterns of the directories above it (the model instead pushes and pops a stack while walking, and tests a directory
+    after pushing its own patterns — the domain law is what reconciles the two).
+Nothing of the walk itself (traversal order, the stacks, the second-call protocol, early exits, counters) is shared.
 -/
 import Scalibr.Model.Walk
 namespace Scalibr.Walk
